@@ -1300,6 +1300,9 @@ impl<K: KeyT, V: ValT> MapWorld<K, V> {
                 }
                 n += 1;
             }
+            // the "what is left" view of the rustc-internal API: exactly the entries not yet yielded
+            let view: Vec<(u32, u32)> = it.rustc_iter().map(|(k, _)| (k.id(), k.serial())).collect();
+            let n_view = got.len();
             if fold {
                 sim().probe(Probe::DrainFold);
                 got = it.fold(got, |mut acc, x| {
@@ -1311,7 +1314,7 @@ impl<K: KeyT, V: ValT> MapWorld<K, V> {
             } else {
                 drop(it);
             }
-            (got, errs)
+            (got, errs, view, n_view)
         });
         {
             let mut s = sim();
@@ -1321,7 +1324,7 @@ impl<K: KeyT, V: ValT> MapWorld<K, V> {
                 s.probe(Probe::EarlyDropDrain);
             }
         }
-        let Some((got, errs)) = self.settle(out, si, fc)? else { return Ok(()) };
+        let Some((got, errs, view, n_view)) = self.settle(out, si, fc)? else { return Ok(()) };
         let mut g: Vec<ME> = got.iter().map(|(k, v)| ME { kid: k.id(), ks: k.serial(), v: v.val(), vs: v.serial() }).collect();
         let intact = got.iter().all(|(k, v)| k.intact() && v.intact());
         drop(got);
@@ -1354,6 +1357,15 @@ impl<K: KeyT, V: ValT> MapWorld<K, V> {
         }
         if let Some(e) = errs.into_iter().next() {
             vio!(self, "iterlen/Drain", "{e}");
+        }
+        {
+            let mut left: Vec<(u32, u32)> = model.e.iter().map(|e| (e.kid, e.ks)).filter(|t| !g[..n_view.min(g.len())].iter().any(|x| (x.kid, x.ks) == *t)).collect();
+            left.sort();
+            let mut v = view.clone();
+            v.sort();
+            if v != left {
+                vio!(self, "iter/Drain", "after {n_view} items the drain's rustc_iter() shows {} entries, {} have not been yielded yet", v.len(), left.len());
+            }
         }
         g.sort();
         let ms = model.sorted();
